@@ -307,3 +307,174 @@ Proof.
                     ds cs Hc Hs nsp po t m path).
 Qed.
 Print Assumptions C01_split_hypothesis_from_rows.
+
+(* ================================================================== H8 DISCHARGED; THE MACHINE SIDE (Proofs/EndToEndRows.v)
+   The word ids that the tokenizer model threads along by position are the ids of the candidates that were inserted;
+   a dictionary candidate is a lookup result, so by the C04 certificate of its lexicon -- taken against the index rows of
+   the dictionary SOURCE (C05: index_rows_of) -- it ends where an indexed surface that is a prefix of the text there ends,
+   and its id is the stamped row number: the node covers the key of its word.  OOV nodes and nodes rebuilt by path-rewrite
+   plugins carry ids outside the dictionaries and declare no units. *)
+From SudachiVerif Require Import Proofs.EndToEndRows.
+From SudachiVerif Require Proofs.LexSetProofs Model.CodecCheck Model.CodecResolve Model.LatticeM Model.LatticeP Proofs.LatticePProofs.
+
+Fact C01_e2e_layout_fact : LexSetProofs.layout_ok = true.
+Proof. vm_compute. reflexivity. Qed.
+
+(* every node handed to split_path either has no dictionary id (dictionary part 15: OOV or WordId::INVALID) or its id is
+   that of a row of the dictionary source and it covers, in the rewritten text, exactly the key of that row *)
+Theorem C01_path_nodes_cover_their_keys :
+  forall (tk : tokenizer) (t : list N) (ds : SplitSource.srcs),
+    Forall scalar t ->
+    Forall2 (fun L rows => exists fuel, LexSet.cert_lex L (CodecCheck.index_rows_of rows) fuel = true) (tk_lexs tk) ds ->
+    length ds <= 15 -> SplitDict.srcs_ok ds ->
+    (forall p m, In m (offered_at the_cfg tk t p) -> BuildLatticeProofs.node_wf (length t) p m) ->
+    forall a, pre_split the_cfg tk t = Ok a ->
+    forall nd, In nd (pr_split_in a) ->
+      SplitSource.dic_part (Split.wid nd) = 15%N \/
+      ((exists rr, SplitSource.src_row ds (Split.wid nd) = Some rr) /\
+       SplitDict.covers t nd (SplitSource.src_key ds (Split.wid nd))).
+Proof.
+  exact (fun tk t ds Hsc Hcert Hnd Hsrc Hwf =>
+    path_nodes_cover_their_keys the_cfg C01_facts_ok C01_e2e_layout_fact tk t Hsc ds Hcert Hnd Hsrc Hwf).
+Qed.
+Print Assumptions C01_path_nodes_cover_their_keys.
+
+(* C01_tokenizer_end_to_end with H8 replaced by the author-checkable condition on the dictionary source.
+   ds = the source rows of the dictionary stack (system first), cs = the compiled files, nsp / po = num_system_pos and the
+   POS offsets of the loaded stack (C05 / C09 models).  Hypotheses H1..H5, H7 as in C01_tokenizer_end_to_end;
+     H6'  every lexicon carries the C04 certificate against the index rows of ITS source rows, and the source surfaces are
+          Unicode scalar values;
+     H8'  the stack is what the C05 writer compiles from ds (stack_compiled), the rows come from the CSV reader and no
+          dictionary has 2^28 words (srcs_ok), at most 15 dictionaries (LexiconSet::is_full), the split tables of tk are
+          those of the loaded stack, and in mode A (B) every word of the source (src_row ds w = Some _) that declares two
+          or more A (B) units satisfies rows_units_ok: its units exist, have non-empty keys, and their keys concatenate
+          to the key of the word. *)
+Theorem C01_tokenizer_end_to_end_from_rows :
+  forall (tk : tokenizer) (t0 : list N) (o_simple : Oov.oovdef) (t : list N)
+         (ds : SplitSource.srcs) (cs : list SplitSource.compiled) (nsp : N) (po : N -> N),
+    t = NormalizeBuffer.stack_spec (tk_plugins tk) t0 ->
+    (* H1 *) (Z.of_nat (length (PipelineFull.enc t0)) <= Z.of_N (c_start_limit the_cfg))%Z ->
+    (* H2 *) Forall NormalizeBuffer.plugin_wf (tk_plugins tk) ->
+    (* H3, H4 *) NormalizeBuffer.stack_nonempty (tk_plugins tk) t0 -> NormalizeBuffer.stack_fits the_cfg (tk_plugins tk) t0 ->
+    (* H5 *) Forall scalar t ->
+    (* H6' *)
+    Forall2 (fun L rows => exists fuel, LexSet.cert_lex L (CodecCheck.index_rows_of rows) fuel = true) (tk_lexs tk) ds ->
+    Forall (Forall (fun r => Forall scalar (CodecResolve.r_surface r))) ds ->
+    (* H7 *)
+    (forall q, In q (tk_provs tk) -> OovWf.provider_oracle_ok q (length t)) ->
+    Oov.fallback_of (tk_provs tk) = Some (Oov.PSimple o_simple) ->
+    (forall p, p < length t ->
+       exists st, Oov.normal_pass (Oov.mk_ctx (classes tk t)) (tk_provs tk) p (dict_onodes the_cfg tk t p) = Oov.ROk st) ->
+    (* H8' *)
+    SplitDict.stack_compiled ds cs -> SplitDict.srcs_ok ds -> length ds <= 15 ->
+    tk_hw tk = SplitSource.ld_hw cs nsp po ->
+    tk_ua tk = SplitSource.ld_units cs nsp po true -> tk_ub tk = SplitSource.ld_units cs nsp po false ->
+    match tk_mode tk with
+    | Split.ModeA => forall w rr, SplitSource.src_row ds w = Some rr ->
+                       2 <= length (SplitSource.ld_units cs nsp po true w) -> SplitSource.rows_units_ok ds true w = true
+    | Split.ModeB => forall w rr, SplitSource.src_row ds w = Some rr ->
+                       2 <= length (SplitSource.ld_units cs nsp po false w) -> SplitSource.rows_units_ok ds false w = true
+    | Split.ModeC => True
+    end ->
+    exists ms, tokenize_model the_cfg tk t0 = Ok ms /\
+      (t = [] -> ms = []) /\
+      (t <> [] ->
+         partition_b (PipelineFull.enc t0) (map (fun m => (mo_begin m, mo_end m)) ms) = true /\
+         concat (map mo_surface ms) = PipelineFull.enc t0 /\
+         Forall (fun m => mo_surface m = byte_slice (PipelineFull.enc t0) (mo_begin m, mo_end m) /\
+                          mo_begin_c m = codepoints_before (PipelineFull.enc t0) (mo_begin m) /\
+                          mo_end_c m = codepoints_before (PipelineFull.enc t0) (mo_end m)) ms /\
+         exists a, pre_split the_cfg tk t = Ok a /\
+           let p := map fst (pr_path a) in
+           let off := Offered (offered_at the_cfg tk t) OovLattice.no_fallback in
+           chainP off 0 (length t) p /\ path_cost (tk_conn tk) p = snd (pr_eos a) /\
+           forall p', chainP off 0 (length t) p' -> (path_cost (tk_conn tk) p <= path_cost (tk_conn tk) p')%Z).
+Proof.
+  exact (match C01_e2e_facts with
+    | conj Fs (conj Fg (conj Fp (conj Ffw (conj Ffx (conj Fsp (conj Gs (conj Gr (conj Gc Gl)))))))) =>
+      tokenizer_end_to_end_from_rows Fs Fg Fp Ffw Ffx C01_e2e_rewrite_facts Fsp C01_e2e_layout_fact
+        (proj1 C01_e2e_codec_facts) (proj1 (proj2 C01_e2e_codec_facts)) (proj2 (proj2 C01_e2e_codec_facts))
+        the_cfg C01_facts_ok Gs Gr Gc Gl
+    end).
+Qed.
+Print Assumptions C01_tokenizer_end_to_end_from_rows.
+
+(* The machine side of the same run.  nl, nr, data = ConnectionMatrix { num_left, num_right, data }.  In addition to the
+   hypotheses above:
+     B1  the rewritten text has at most 32766 characters;
+     B2  |connection cost| <= 32768 (i16);
+     B3  every OFFERED candidate has |word cost| <= 32768 (i16) and connection ids below the matrix dimensions;
+     B4  the matrix table has num_left * num_right entries, both > 0;
+     B5  at most 65535 offered candidates end at the same boundary (`index as u16`).
+   Then, besides everything C01_tokenizer_end_to_end_from_rows states, for a non-empty rewritten text: the lattice of the
+   run is the insertion of a list `ins` of offered candidates; computed in i32 with the i32::MAX sentinel, with checked or
+   wrapping additions, every insert and connect_eos yield exactly the exact-arithmetic lattice and EOS entry (C02 /
+   C03_no_overflow_if_bounded: no overflow, no clash with the sentinel); and the array-level model of lattice.rs run on the
+   same insertions -- from any earlier state of the reused Lattice object, in any build profile -- has no index / unwrap /
+   cast / assertion panic and never reads outside the matrix (C03_lattice_no_index_panic); by the previous conjunct the
+   one remaining site, the i32 addition, does not overflow. *)
+Theorem C01_tokenizer_end_to_end_machine :
+  forall (tk : tokenizer) (t0 : list N) (o_simple : Oov.oovdef) (t : list N)
+         (ds : SplitSource.srcs) (cs : list SplitSource.compiled) (nsp : N) (po : N -> N),
+    t = NormalizeBuffer.stack_spec (tk_plugins tk) t0 ->
+    (Z.of_nat (length (PipelineFull.enc t0)) <= Z.of_N (c_start_limit the_cfg))%Z ->
+    Forall NormalizeBuffer.plugin_wf (tk_plugins tk) ->
+    NormalizeBuffer.stack_nonempty (tk_plugins tk) t0 -> NormalizeBuffer.stack_fits the_cfg (tk_plugins tk) t0 ->
+    Forall scalar t ->
+    Forall2 (fun L rows => exists fuel, LexSet.cert_lex L (CodecCheck.index_rows_of rows) fuel = true) (tk_lexs tk) ds ->
+    Forall (Forall (fun r => Forall scalar (CodecResolve.r_surface r))) ds ->
+    (forall q, In q (tk_provs tk) -> OovWf.provider_oracle_ok q (length t)) ->
+    Oov.fallback_of (tk_provs tk) = Some (Oov.PSimple o_simple) ->
+    (forall p, p < length t ->
+       exists st, Oov.normal_pass (Oov.mk_ctx (classes tk t)) (tk_provs tk) p (dict_onodes the_cfg tk t p) = Oov.ROk st) ->
+    SplitDict.stack_compiled ds cs -> SplitDict.srcs_ok ds -> length ds <= 15 ->
+    tk_hw tk = SplitSource.ld_hw cs nsp po ->
+    tk_ua tk = SplitSource.ld_units cs nsp po true -> tk_ub tk = SplitSource.ld_units cs nsp po false ->
+    match tk_mode tk with
+    | Split.ModeA => forall w rr, SplitSource.src_row ds w = Some rr ->
+                       2 <= length (SplitSource.ld_units cs nsp po true w) -> SplitSource.rows_units_ok ds true w = true
+    | Split.ModeB => forall w rr, SplitSource.src_row ds w = Some rr ->
+                       2 <= length (SplitSource.ld_units cs nsp po false w) -> SplitSource.rows_units_ok ds false w = true
+    | Split.ModeC => True
+    end ->
+    forall (nl nr : N) (data : list Z),
+    (* B1 *) (N.of_nat (length t) <= 32766)%N ->
+    (* B2 *) (forall l r, (- 32768 <= tk_conn tk l r <= 32768)%Z) ->
+    (* B3 *) (forall p m, In m (offered_at the_cfg tk t p) ->
+                (- 32768 <= ncost m <= 32768)%Z /\ LatticeP.ids_ok nl nr m = true) ->
+    (* B4 *) LatticeP.matrix_ok nl nr data = true ->
+    (* B5 *) (forall e, (N.of_nat (LatticeP.count_end e (flat_map (offered_at the_cfg tk t) (seq 0 (length t)))) <= 65535)%N) ->
+    (exists ms, tokenize_model the_cfg tk t0 = Ok ms /\
+      (t = [] -> ms = []) /\
+      (t <> [] ->
+         partition_b (PipelineFull.enc t0) (map (fun m => (mo_begin m, mo_end m)) ms) = true /\
+         concat (map mo_surface ms) = PipelineFull.enc t0 /\
+         Forall (fun m => mo_surface m = byte_slice (PipelineFull.enc t0) (mo_begin m, mo_end m) /\
+                          mo_begin_c m = codepoints_before (PipelineFull.enc t0) (mo_begin m) /\
+                          mo_end_c m = codepoints_before (PipelineFull.enc t0) (mo_end m)) ms /\
+         exists a, pre_split the_cfg tk t = Ok a /\
+           let p := map fst (pr_path a) in
+           let off := Offered (offered_at the_cfg tk t) OovLattice.no_fallback in
+           chainP off 0 (length t) p /\ path_cost (tk_conn tk) p = snd (pr_eos a) /\
+           forall p', chainP off 0 (length t) p' -> (path_cost (tk_conn tk) p <= path_cost (tk_conn tk) p')%Z)) /\
+    (t <> [] ->
+       exists a ins,
+         pre_split the_cfg tk t = Ok a /\
+         pr_lattice a = insert_all (tk_conn tk) (reset (length t)) ins /\
+         (forall m, In m ins -> exists q, In m (offered_at the_cfg tk t q)) /\
+         connect_eos (tk_conn tk) (pr_lattice a) = Some (pr_eos a) /\
+         (forall checked, exists costs,
+            LatticeM.minsert_all checked (tk_conn tk) (LatticeM.mreset (length t)) ins
+              = LatticeM.Ok (LatticeM.embL (pr_lattice a), costs) /\
+            LatticeM.mconnect_eos checked (tk_conn tk) (LatticeM.embL (pr_lattice a)) = LatticeM.Ok (Some (pr_eos a))) /\
+         (forall dbg ovf L0,
+            LatticePProofs.no_index_panic (LatticeP.prounds dbg ovf nl nr data L0 [(length t, ins)]))).
+Proof.
+  exact (match C01_e2e_facts with
+    | conj Fs (conj Fg (conj Fp (conj Ffw (conj Ffx (conj Fsp (conj Gs (conj Gr (conj Gc Gl)))))))) =>
+      tokenizer_end_to_end_machine Fs Fg Fp Ffw Ffx C01_e2e_rewrite_facts Fsp C01_e2e_layout_fact
+        (proj1 C01_e2e_codec_facts) (proj1 (proj2 C01_e2e_codec_facts)) (proj2 (proj2 C01_e2e_codec_facts))
+        the_cfg C01_facts_ok Gs Gr Gc Gl
+    end).
+Qed.
+Print Assumptions C01_tokenizer_end_to_end_machine.
